@@ -8,6 +8,7 @@ import (
 	"github.com/nlnwa/whatwg-url/url"
 
 	"verif/core"
+	"verif/gen"
 	"verif/obs"
 )
 
@@ -37,6 +38,19 @@ func (m c19) Run(ctx *core.Ctx) {
 		L = 5
 	}
 	runStateWorkload(ctx, m.Exec, histKinds{setters: true, resolve: true, clone: true}, tierN(ctx.Tier, 400_000, 25_000_000), tierN(ctx.Tier, 400_000, 25_000_000), L)
+	// parsers with custom special-scheme tables, interleaved in the same process
+	r := ctx.Rng
+	n := split(tierN(ctx.Tier, 100_000, 4_000_000), ctx.Shard, ctx.NShards)
+	for i := int64(0); i < n; i++ {
+		in := gen.Pick(r, []string{"http://h/", "http://h:80/", "http://h:8080/", "gopher://h/", "gopher://h:70/", "gopher://h:7070/x", "https://h:443/", "file:///x", "file://h/x", "ws://h:81/"})
+		if r.IntN(2) == 0 {
+			in = gen.StartURL(r)
+		}
+		cs := &core.Case{Check: "custom-table", Input: core.S(in), Config: []string{gen.Pick(r, c19Tables)},
+			Ops: genHistory(r, 4, histKinds{setters: true, resolve: true, clone: true})}
+		ctx.Begin(cs)
+		m.Exec(ctx, cs)
+	}
 }
 
 func isDottedDecimal(h string) bool {
@@ -63,7 +77,10 @@ func isDottedDecimal(h string) bool {
 	return true
 }
 
-func checkAccessors(s obs.Snap) []string {
+func checkAccessors(s obs.Snap) []string { return checkAccessorsWith(s, stdDefaultPorts, stdSpecial) }
+
+// checkAccessorsWith checks against a given special-scheme table (scheme -> default port, "" = none).
+func checkAccessorsWith(s obs.Snap, stdDefaultPorts map[string]string, stdSpecial map[string]bool) []string {
 	var bad []string
 	fail := func(f string, a ...any) { bad = append(bad, fmt.Sprintf(f, a...)) }
 	v6 := strings.HasPrefix(s.Hostname, "[") && strings.HasSuffix(s.Hostname, "]")
@@ -111,7 +128,68 @@ func checkAccessors(s obs.Snap) []string {
 	return bad
 }
 
-func (c19) Exec(ctx *core.Ctx, cs *core.Case) {
+// c19Tables: parsers with their own special-scheme tables (the accessors must follow the
+// table of the parser that made the URL, whatever other parsers in the process use).
+var c19Tables = []string{"gopher", "http8080", "nofile"}
+
+func (m c19) execTable(ctx *core.Ctx, cs *core.Case) {
+	arg := cs.Config[0]
+	table := specialArg(arg)
+	special := map[string]bool{}
+	ports := map[string]string{}
+	for k, v := range table {
+		special[k] = true
+		if v != "" {
+			ports[k] = v
+		}
+	}
+	p := url.NewParser(url.WithSpecialSchemes(table))
+	input := string(cs.Input)
+	u, err, pan := parseImpl(ctx, p, input, "", false, false)
+	if pan != nil || err != nil || u == nil {
+		return
+	}
+	ctx.Nontrivial()
+	ctx.Count("states_custom_table")
+	check := func(where string) bool {
+		var s obs.Snap
+		if pan := ctx.Call(64, func() { s = obs.Take(u) }); pan != nil {
+			return false
+		}
+		// OpaquePath/IsIPv4 shape rules are those of the default table; check the table-dependent accessors
+		var bad []string
+		for _, b := range checkAccessorsWith(s, ports, special) {
+			if strings.HasPrefix(b, "DecodedPort") || strings.HasPrefix(b, "IsSpecialScheme") || strings.HasPrefix(b, "Protocol") || strings.HasPrefix(b, "Search") || strings.HasPrefix(b, "Hash") || strings.HasPrefix(b, "IsIPv6") {
+				bad = append(bad, b)
+			}
+		}
+		if len(bad) > 0 {
+			ctx.Violate("derived accessor disagrees under a custom special-scheme table: "+invariantClass(bad[0]), "accessors agree with the components", s.Href, where+" table "+arg+": "+strings.Join(bad, " | "))
+			return false
+		}
+		return true
+	}
+	if !check("after parse") {
+		return
+	}
+	for i, op := range cs.Ops {
+		if pan := ctx.Call(opBytes(op)+len(input)+256, func() { u = applyOp(u, op) }); pan != nil {
+			return
+		}
+		if !check(fmt.Sprintf("after step %d %s", i, clipS(op.String(), 100))) {
+			return
+		}
+	}
+}
+
+func (m c19) Exec(ctx *core.Ctx, cs *core.Case) {
+	if len(cs.Config) > 0 {
+		m.execTable(ctx, cs)
+		return
+	}
+	if len(cs.Input)%4 == 1 {
+		interfere(ctx, string(cs.Input))
+	}
 	walkStates(ctx, cs, func(u *url.Url, where string) bool {
 		var s obs.Snap
 		if pan := ctx.Call(64, func() { s = obs.Take(u) }); pan != nil {
